@@ -34,8 +34,8 @@ class LifecycleAdmin(actors.Party):
 class C05(Check):
     prop = "C05"
     level = "exploration"
-    quick_runs = 8000
-    thorough_runs = 200000
+    quick_runs = 10000
+    thorough_runs = 250000
     rule = (
         "seeded histories of create (all metadata fields, unicode, nested data, name given or omitted, any UTC offset) / "
         "update of every non-empty field subset / delete / re-create / lookup / describe (fresh and stale handles) on "
